@@ -605,7 +605,29 @@ def case_chart(name, nser, npts, part=None):
         if len(charts) == 1:
             look(charts[0], "after formatting one point, re-opened", seen0 | after)
         out[n0:] = [(sig.replace("|after-reopen", "") + "|after-point-format", what) for sig, what in out[n0:]]
+
+    # The enumeration is an int enumeration: its plain integer value is EQUAL to the member (same hash). A call that
+    # accepts the integer (stored configurations, `int(chart.chart_type)`) must make the same type of chart; a refusal
+    # is fine (only members are documented).
+    try:
+        cd2, _ = _chart_data(name, nser, npts)
+        gf2 = _other_slide_of(prs).shapes.add_chart(int(m), 0, 0, 4000000, 3000000, cd2)
+        got = gf2.chart.chart_type
+    except Exception as e:  # noqa: BLE001
+        if part is not None:
+            part.outcome("add_chart(int value)", "refused:%s" % type(e).__name__)
+    else:
+        if part is not None:
+            part.outcome("add_chart(int value)", "accepted")
+        if got is not m and not live:
+            out.append(("C20|chart-readback|%s|given-by-int-value|got=%s" % (tag, getattr(got, "name", got)),
+                        "add_chart(%d) - the integer value of %s, equal to the member - with %d series x %d points "
+                        "reads back chart_type %r" % (int(m), q, nser, npts, got)))
     return "ok", out
+
+
+def _other_slide_of(prs):
+    return prs.slides.add_slide(prs.slide_layouts[6])
 
 
 # ---- adjustment-default histories (class-level caches) ------------------------------------------------
